@@ -193,6 +193,11 @@ pre_thread(struct emu *emu)
 
 	switch (ev->v) {
 		case 'C': /* create */
+			if (ev->payload_size < 12) {
+				err("unexpected payload size %zd", ev->payload_size);
+				return -1;
+			}
+
 			dbg("thread %d creates a new thread at cpu=%d with args=%x %x",
 					th->tid,
 					ev->payload->u32[0],
